@@ -18,7 +18,7 @@ TMO = 10000
 
 
 class Scen:
-    def __init__(self, name, kind, bridges=None, herd=False, watchdog=None, labels=None):
+    def __init__(self, name, kind, bridges=None, herd=False, watchdog=None, labels=None, barrier=None):
         self.name = name
         self.kind = kind
         self.bridges = bridges                # full list installed with InstallBridgeListProfile (None: built-in default only)
@@ -26,7 +26,8 @@ class Scen:
         self.herd = herd
         self.watchdog = watchdog
         self.forced_labels = labels           # explicit label derivation function (for lock-forced schedules)
-        self.np = self.nc = self.na = self.nl = 0
+        self.barrier = barrier                # delivery barrier: number of client handlers whose first Write waits for the others
+        self.np = self.nc = self.na = self.nl = self.ni = 0
 
     def poll(self, t, sid, nat, clients=0, ptype="standalone"):
         k = self.np; self.np += 1
@@ -42,6 +43,23 @@ class Scen:
         k = self.na; self.na += 1
         self.events.append(dict(kind="A", k=k, t=t, sid=sid, ans=ans, after=after_poll))
         return k
+
+    def install(self, t, bridges):
+        """InstallBridgeListProfile in the middle of the scenario (replaces the whole list)"""
+        k = self.ni; self.ni += 1
+        self.events.append(dict(kind="I", k=k, t=t, bridges=list(bridges)))
+        return k
+
+    def lists_from(self, t):
+        """the list current at time t and every list installed later"""
+        cur = self.bridge_list()
+        later = []
+        for e in sorted((e for e in self.events if e["kind"] == "I"), key=lambda e: e["t"]):
+            if e["t"] <= t:
+                cur = e["bridges"]
+            else:
+                later.append(e["bridges"])
+        return [dict(cur)] + [dict(b) for b in later]
 
     def lock(self, t, dur):
         k = self.nl; self.nl += 1
@@ -62,8 +80,12 @@ class Scen:
                 ev.append("A%d:%s:%s@%s" % (e["k"], e["sid"], e["ans"], when))
             elif e["kind"] == "L":
                 ev.append("L%d:%d@%d" % (e["k"], e["dur"], e["t"]))
+            elif e["kind"] == "I":
+                ev.append("I%d:%s@%d" % (e["k"], ";".join("%s=%s" % b for b in e["bridges"]) or "-", e["t"]))
         if self.watchdog:
             ev.append("W0:%d@0" % self.watchdog)
+        if self.barrier:
+            ev.append("D0:%d@0" % self.barrier)
         if not self.herd and not self.forced_labels:
             ev.append("Q0:1@0")   # sequenced mode: well-separated events cannot be reordered by a loaded machine
         br = ",".join("%s=%s" % b for b in self.bridges) if self.bridges is not None else "-"
@@ -82,12 +104,13 @@ def parse_obs(line):
 class Tags:
     """strings <-> integer tags for the model"""
     def __init__(self):
-        self.m = {}
-        self.r = {}
+        # tag 0 is the model's default_fp / default_url (Model/Broker.v): the defaulting itself is done by the model
+        self.m = {DEFAULT_FP: 0, DEFAULT_URL: 0}
+        self.r = {0: DEFAULT_URL}
 
     def __call__(self, s):
         if s not in self.m:
-            self.m[s] = len(self.m) + 1
+            self.m[s] = len(self.m)
             self.r[self.m[s]] = s
         return self.m[s]
 
@@ -162,8 +185,9 @@ def derive_labels(sc, obs, tags):
                 r = obs.get("P%d" % en["k"], "")
                 if en["state"] == "wait" and r.startswith("match:") and r.split(":")[1] == e["offer"]:
                     choice = p
-            fp = fpkey(e["fp"])
-            labels.append("C:%s:%d:%d:%s" % (NATS[e["nat"]], tags(fp), tags(e["offer"]), "-" if choice is None else str(choice)))
+            fp = fpkey(e["fp"])    # only to pick the follow-up labels; the label itself carries the field as sent
+            labels.append("C:%s:%s:%d:%s" % (NATS[e["nat"]], "-" if e["fp"] == "-" else str(tags(e["fp"])), tags(e["offer"]),
+                                             "-" if choice is None else str(choice)))
             if choice is not None and fp in bridges:
                 en = entries[choice]
                 en["state"] = "matched"
@@ -185,6 +209,9 @@ def derive_labels(sc, obs, tags):
                 labels.extend(["FC:%d" % e["p"], "CT:%d" % e["p"], "CC:%d" % e["p"]])
                 en["cwait"] = False
                 idmap.pop(en["sid"], None)
+        elif e["kind"] == "I":
+            labels.append(install_label(e["bridges"], tags))
+            bridges.clear(); bridges.update(dict(e["bridges"]))
         elif e["kind"] == "A":
             do_answer(t, e)
         elif e["kind"] == "Arel":
@@ -192,10 +219,14 @@ def derive_labels(sc, obs, tags):
     return labels, names
 
 
-def model_line(sc, labels, tags, version="v1"):
-    br = sc.bridge_list()
-    return "broker run %s %s %s" % (version, ",".join("%d=%d" % (tags(f), tags(u)) for f, u in br),
-                                    ",".join(labels) if labels else "-")
+def install_label(bridges, tags):
+    return "I:" + (";".join("%d=%d" % (tags(f), tags(u)) for f, u in bridges) or "-")
+
+
+def model_line(sc, labels, tags, version="v1", op="run"):
+    # the model starts from the built-in default bridge (NewBrokerContext) and installs the scenario's list, if any
+    br = ",".join("%d=%d" % (tags(f), tags(u)) for f, u in sc.bridges) if sc.bridges is not None else "-"
+    return "broker %s %s %s %s" % (op, version, br, ",".join(labels) if labels else "-")
 
 
 def canon_impl(sc, obs):
@@ -203,7 +234,7 @@ def canon_impl(sc, obs):
     d = {}
     for k, v in obs.items():
         if k[0] == "P" and k[1:].isdigit():
-            d[k] = v
+            d[k] = "error" if v == "http:500" else v
         elif k[0] == "C" and k[1:].isdigit():
             d[k] = "badfp" if v == "http:500" else v
         elif k[0] == "A" and k[1:].isdigit():
@@ -254,10 +285,14 @@ def check_history(sc, obs):
                 bad.append(("C02", "offer-delivered-twice", "offer of C%d reached polls P%d and P%d" % (c["k"], got[c["k"]], pk)))
             got[c["k"]] = pk
             fp = DEFAULT_FP if c["fp"] == "-" else c["fp"]
-            if fp not in bridges:
+            lists = sc.lists_from(c["t"])    # the list the client was checked against, then every later one
+            if fp not in lists[0]:
                 bad.append(("C02", "unknown-bridge-matched", "client C%d named unknown bridge %s but P%d got its offer" % (c["k"], fp, pk)))
-            elif relay != bridges[fp]:
-                bad.append(("C02", "wrong-relay-url", "P%d got relay %s, client C%d named bridge %s -> %s" % (pk, relay, c["k"], fp, bridges[fp])))
+            elif relay not in [b[fp] for b in lists if fp in b]:
+                earlier = [dict(e["bridges"]).get(fp) for e in sc.events if e["kind"] == "I" and e["t"] <= c["t"]] + [dict(sc.bridge_list()).get(fp)]
+                key = "relay-url-stale" if relay in earlier else "wrong-relay-url"
+                bad.append(("C02", key, "P%d got relay %s, client C%d named bridge %s, which the list installed at its request maps to %s%s" % (
+                    pk, relay, c["k"], fp, [b.get(fp) for b in lists], " (the address of an earlier list)" if key == "relay-url-stale" else "")))
             want_nat = c["nat"] if c["nat"] else "unknown"
             if cnat != want_nat:
                 bad.append(("C02", "wrong-client-nat", "P%d was told client NAT %s, client sent %s" % (pk, cnat, want_nat)))
@@ -281,6 +316,18 @@ def check_history(sc, obs):
                 bad.append(("C02", "answer-cross-wired", "C%d got answer %s; its offer went to P%d (sid %s) under which %s were posted" % (ck, a, got[ck], sid, posted)))
         if r in ("blocked",) or r.startswith("panic"):
             bad.append(("C04", "client-poll-" + r.split(":")[0], "client poll C%d did not complete: %s" % (ck, r)))
+        # the bridge check itself: a client naming a bridge of the list installed at its request (the default bridge when it
+        # names none) is not turned away as unknown, and one naming an absent bridge is
+        fp = DEFAULT_FP if c["fp"] == "-" else c["fp"]
+        cur = sc.lists_from(c["t"])[0]
+        if r and r != "blocked":
+            if fp in cur and r in ("http:500", "error"):
+                bad.append(("C02", "default-bridge-not-applied" if c["fp"] == "-" else "known-bridge-rejected",
+                            "client C%d named %s, which the installed list has, and was answered %s" % (ck, "no bridge (= the default bridge)" if c["fp"] == "-" else fp, r)))
+            if fp not in cur and r != "http:500":
+                bad.append(("C02", "unknown-bridge-accepted", "client C%d named bridge %s, absent from the installed list, and was answered %s" % (ck, fp, r)))
+        if ck in got and (r.startswith("err:") or r == "error" or (r.startswith("http:") and r != "http:500")):
+            bad.append(("C02", "client-response-garbled", "client C%d, whose offer was handed to P%d, received an undecodable response (%s)" % (ck, got[ck], r)))
     for pk in polls:
         r = obs.get("P%d" % pk, "")
         if r == "blocked" or r.startswith("panic") or r.startswith("err"):
@@ -321,7 +368,7 @@ def check_sequential(sc, obs):
                     ((polls[k]["nat"] or "unknown") != "unrestricted" if cn == "unrestricted" else (polls[k]["nat"] or "unknown") == "unrestricted")]
             r = obs.get("C%d" % e["k"], "")
             fp = DEFAULT_FP if e["fp"] == "-" else e["fp"]
-            if fp not in bridges:
+            if fp not in sc.lists_from(t)[0]:
                 continue
             chosen = by_offer.get(e["offer"])
             if r == "noproxies" and elig:
@@ -334,6 +381,159 @@ def check_sequential(sc, obs):
                             e["k"], chosen, polls[chosen]["clients"], m)))
                     del waiting[chosen]
     return bad
+
+
+def check_concurrent(sc, obs):
+    """C03's refusal / least-loaded clauses in a form that is sound under true concurrency, from observed times:
+    a poll Q certainly waited in its heap during the whole of client C's request when Q was SEEN registered before C
+    was sent, C returned less than 10 s after Q was sent (Q's timer had not fired), and Q was never matched."""
+    bad = []
+    polls = {e["k"]: e for e in sc.events if e["kind"] == "P"}
+    by_offer = {}
+    for pk in polls:
+        r = obs.get("P%d" % pk, "")
+        if r.startswith("match:"):
+            by_offer[r.split(":")[1]] = pk
+
+    def times(key, n):
+        try:
+            v = [int(x) for x in obs.get(key, "").split(":")]
+            return v if len(v) == n else None
+        except ValueError:
+            return None
+
+    for c in (e for e in sc.events if e["kind"] == "C"):
+        tc = times("tC%d" % c["k"], 2)
+        r = obs.get("C%d" % c["k"], "")
+        if not tc or tc[0] < 0 or tc[1] < 0:
+            continue
+        fp = DEFAULT_FP if c["fp"] == "-" else c["fp"]
+        if fp not in sc.lists_from(c["t"])[0] or any(e["kind"] == "I" for e in sc.events) and sc.herd:
+            continue
+        cn = c["nat"] if c["nat"] else "unknown"
+        chosen = by_offer.get(c["offer"])
+        # the client's matchSnowflake call ended before the poll it was given returned / before the refusal returned
+        upper = tc[1]
+        if chosen is not None:
+            tp = times("tP%d" % chosen, 3)
+            if tp and tp[2] >= 0:
+                upper = min(upper, tp[2])
+        waiting = []
+        for pk, q in polls.items():
+            tq = times("tP%d" % pk, 3)
+            if not tq or tq[0] < 0 or tq[1] < 0:
+                continue
+            pn = q["nat"] if q["nat"] else "unknown"
+            compatible = (pn != "unrestricted") if cn == "unrestricted" else (pn == "unrestricted")
+            if compatible and obs.get("P%d" % pk) == "nomatch" and tq[1] < tc[0] and upper < tq[0] + TMO:
+                waiting.append(pk)
+        if not waiting:
+            continue
+        if r == "noproxies":
+            bad.append(("C03", "refused-although-proxy-waiting", "C%d (%s) was refused although %s waited in its pool during the whole request (times %s)" % (
+                c["k"], cn, ["P%d" % k for k in waiting], obs.get("tC%d" % c["k"]))))
+        if chosen is not None:
+            m = min(polls[k]["clients"] for k in waiting)
+            if polls[chosen]["clients"] > m:
+                bad.append(("C03", "not-least-loaded", "C%d was given P%d (load %d) although a proxy with load %d (%s) waited in its pool during the whole request" % (
+                    c["k"], chosen, polls[chosen]["clients"], m, ["P%d" % k for k in waiting if polls[k]["clients"] == m])))
+    return bad
+
+
+def herd_labels(sc, obs, tags):
+    """Admissibility of a truly concurrent herd: when the observed times show that every poll was registered before any
+    client was sent and that no poll timer can have fired before the last match, the outcome (who was given whom, who was
+    refused) must be producible by SOME order of the client steps of the model. Removing a poll from a pool never
+    disables another client's step, so a greedy order decides this. Returns None (times do not allow the argument),
+    ("inadmissible", text), or (labels, names) for the replay in the extracted model."""
+    if any(e["kind"] in "LI" for e in sc.events):
+        return None
+    polls = [e for e in sc.events if e["kind"] == "P"]
+    clients = [e for e in sc.events if e["kind"] == "C"]
+    answers = [e for e in sc.events if e["kind"] == "A"]
+
+    def times(key, n):
+        try:
+            v = [int(x) for x in obs.get(key, "").split(":")]
+            return v if len(v) == n and min(v) >= 0 else None
+        except ValueError:
+            return None
+    tp = {e["k"]: times("tP%d" % e["k"], 3) for e in polls}
+    tc = {e["k"]: times("tC%d" % e["k"], 2) for e in clients}
+    if not polls or not clients or any(v is None for v in tp.values()) or any(v is None for v in tc.values()):
+        return None
+    if max(v[1] for v in tp.values()) >= min(v[0] for v in tc.values()):
+        return None
+    by_offer = {}
+    for e in polls:
+        r = obs.get("P%d" % e["k"], "")
+        if r.startswith("match:"):
+            by_offer[r.split(":")[1]] = e["k"]
+        elif r != "nomatch":
+            return None
+    # every match was over before any poll timer could fire
+    last = max([tp[by_offer[c["offer"]]][2] if c["offer"] in by_offer else tc[c["k"]][1] for c in clients])
+    if last >= min(v[0] for v in tp.values()) + TMO - 200:
+        return None
+    order = sorted(polls, key=lambda e: (tp[e["k"]][1], e["k"]))
+    idx = {e["k"]: i for i, e in enumerate(order)}
+    labels = ["P:%d:%s:%d:%d" % (tags(e["sid"]), NATS[e["nat"]], tags(e["ptype"]), e["clients"]) for e in order]
+    names = {"P%d" % i: "P%d" % e["k"] for i, e in enumerate(order)}
+    pool = {e["k"]: e for e in polls}          # still waiting
+    todo = list(clients)
+    ncid = 0
+    matched = []
+    while todo:
+        pick = None
+        for c in todo:
+            cn = c["nat"] if c["nat"] else "unknown"
+            elig = [k for k, q in pool.items() if ((q["nat"] or "unknown") != "unrestricted" if cn == "unrestricted" else (q["nat"] or "unknown") == "unrestricted")]
+            r = obs.get("C%d" % c["k"], "")
+            ch = by_offer.get(c["offer"])
+            if ch is not None:
+                if ch in elig and pool[ch]["clients"] == min(pool[k]["clients"] for k in elig):
+                    pick = (c, ch)
+                    break
+            elif r == "noproxies":
+                if not elig:
+                    pick = (c, None)
+                    break
+            else:
+                return None      # some other outcome (bad fingerprint ...): not a herd this argument covers
+        if pick is None:
+            return ("inadmissible", "no order of the client polls %s explains the outcome: waiting %s, matches %s, refused %s" % (
+                ["C%d" % c["k"] for c in todo], sorted((k, q["nat"], q["clients"]) for k, q in pool.items()),
+                sorted((c["k"], by_offer[c["offer"]]) for c in todo if c["offer"] in by_offer),
+                [c["k"] for c in todo if obs.get("C%d" % c["k"]) == "noproxies"]))
+        c, ch = pick
+        todo.remove(c)
+        names["C%d" % ncid] = "C%d" % c["k"]
+        ncid += 1
+        labels.append("C:%s:%s:%d:%s" % (NATS[c["nat"]], "-" if c["fp"] == "-" else str(tags(c["fp"])), tags(c["offer"]),
+                                         "-" if ch is None else str(idx[ch])))
+        if ch is not None:
+            del pool[ch]
+            matched.append((c, ch))
+    naid = 0
+    for c, ch in matched:
+        p = idx[ch]
+        labels += ["RO:%d" % p, "RF:%d" % p]
+        sid = [e for e in polls if e["k"] == ch][0]["sid"]
+        mine = [a for a in answers if a["sid"] == sid and obs.get("A%d" % a["k"]) in ("ok", "fail")]
+        r = obs.get("C%d" % c["k"], "")
+        if len(mine) > 1 or (mine and obs.get("A%d" % mine[0]["k"]) != "ok") or (r == "timeout") != (not mine):
+            return None          # duplicate / failed answers or an answer racing the client timeout: not covered here
+        if mine:
+            a = mine[0]
+            labels += ["A:%d:%d" % (tags(a["sid"]), tags(a["ans"])), "AP:%d" % p, "TA:%d" % p, "CC:%d" % p]
+            names["A%d" % naid] = "A%d" % a["k"]
+            naid += 1
+        else:
+            labels += ["FC:%d" % p, "CT:%d" % p, "CC:%d" % p]
+    for k in pool:
+        p = idx[k]
+        labels += ["FW:%d" % p, "WT:%d" % p, "WC:%d" % p]
+    return labels, names
 
 
 # ---------------------------------------------------------------- running
@@ -354,16 +554,38 @@ def run_scenarios(ctx, scens, props, label):
         bad = check_history(sc, obs)
         if not sc.herd:
             bad += check_sequential(sc, obs)
+        seen = set((p_, k_) for p_, k_, _ in bad)
+        bad += [b for b in check_concurrent(sc, obs) if (b[0], b[1]) not in seen]
         for prop, key, text in bad:
             if prop in props:
                 ctx.violation(key, "%s [%s]" % (text, sc.name), dict(label=label, scenario=sc.name, case=line, impl=o))
+        if sc.herd:
+            tags = Tags()
+            hl = herd_labels(sc, obs, tags)
+            ctx.extra["herds_total"] = ctx.extra.get("herds_total", 0) + 1
+            if hl is not None and hl[0] == "inadmissible":
+                if "C03" in props:
+                    ctx.violation("herd-outcome-inadmissible", "%s [%s]" % (hl[1], sc.name), dict(label=label, scenario=sc.name, case=line, impl=o))
+            elif hl is not None:
+                ctx.extra["herds_replayed_in_model"] = ctx.extra.get("herds_replayed_in_model", 0) + 1
+                labels, names = hl
+                # (the relational machine only: which of several equally loaded proxies the array heap hands out depends on the
+                # exact registration order, which a herd does not reveal)
+                mlines.append(model_line(sc, labels, tags))
+                minfo.append((sc, line, o, obs, names, tags))
         if not sc.herd:
             tags = Tags()
             if sc.forced_labels:
                 labels, names = sc.forced_labels(sc, obs, tags)
             else:
                 labels, names = derive_labels(sc, obs, tags)
+            if getattr(sc, "forced_achieved", None) is not None:
+                ctx.extra["reinstall_race_forced"] = ctx.extra.get("reinstall_race_forced", 0) + (1 if sc.forced_achieved else 0)
             mlines.append(model_line(sc, labels, tags))
+            minfo.append((sc, line, o, obs, names, tags))
+            # the same labels through the machine over the two array heaps (Model/BrokerImpl.v): which proxy a client is
+            # given is then COMPUTED by the model's container/heap, ties included
+            mlines.append(model_line(sc, labels, tags, op="irun"))
             minfo.append((sc, line, o, obs, names, tags))
     if mlines:
         mout = vlib.run_model(mlines)
@@ -375,6 +597,9 @@ def run_scenarios(ctx, scens, props, label):
                     label, sc.name, mo, ml[:600], o[:400]))
                 continue
             cm = canon_model(parse_obs(mo), names, tags)
+            if ml.startswith("broker irun "):
+                ci = dict(ci, heapU=obs.get("heapU"), heapR=obs.get("heapR"))
+                cm = dict(cm, heapU=parse_obs(mo).get("heapU"), heapR=parse_obs(mo).get("heapR"))
             if ci != cm:
                 diff = {k: (ci.get(k), cm.get(k)) for k in set(ci) | set(cm) if ci.get(k) != cm.get(k)}
                 ctx.not_shown("correspondence %s: scenario %s: model and implementation disagree (impl, model): %s; case=%s" % (
@@ -385,7 +610,23 @@ def run_scenarios(ctx, scens, props, label):
         ctx.extra["vm_compute_crosschecked"] = ctx.extra.get("vm_compute_crosschecked", 0) + len(sample)
         for i in badidx:
             ctx.not_shown("extraction cross-check differs on " + sample[i][0][:300])
-    ctx.extra["traces_validated_against_impl"] = ctx.extra.get("traces_validated_against_impl", 0) + len(mlines)
+    # the delivery herds once more in a process restricted to one P (sync.Pool and other per-P caches are then shared by
+    # all handlers): property predicates only
+    dh = [(sc, line) for sc, line in zip(scens, lines) if sc.kind == "delivery-herd"]
+    if dh:
+        env1 = dict(env, GOMAXPROCS="1")
+        rc, out1, err = vlib.run_impl(exe, [l for _, l in dh], args=["-test.run", "^TestVerifBrokerDriver$"], env=env1, timeout=600)
+        if rc != 0 or len(out1) != len(dh):
+            ctx.violation("driver-crash", "broker driver (GOMAXPROCS=1) died rc=%s: %s" % (rc, err[-800:]), dict(label=label, stderr=err[-3000:]))
+        else:
+            for (sc, line), o in zip(dh, out1):
+                ctx.count(line + " #gomaxprocs1", kind="delivery-herd-1p")
+                for prop, key, text in check_history(sc, parse_obs(o)):
+                    if prop in props:
+                        ctx.violation(key, "%s [%s, GOMAXPROCS=1]" % (text, sc.name), dict(label=label, scenario=sc.name, case=line, impl=o, gomaxprocs=1))
+    nir = len([m for m in mlines if m.startswith("broker irun ")])
+    ctx.extra["traces_validated_against_impl"] = ctx.extra.get("traces_validated_against_impl", 0) + len(mlines) - nir
+    ctx.extra["traces_validated_against_array_heap_machine"] = ctx.extra.get("traces_validated_against_array_heap_machine", 0) + nir
 
 
 # ---------------------------------------------------------------- scenario library
@@ -396,7 +637,7 @@ def f1_labels(sc, obs, tags):
     c = [e for e in sc.events if e["kind"] == "C"][0]
     labels = ["P:%d:%s:%d:%d" % (tags(p["sid"]), NATS[p["nat"]], tags(p["ptype"]), p["clients"]),
               "FW:0", "WT:0",
-              "C:%s:%d:%d:0" % (NATS[c["nat"]], tags(DEFAULT_FP), tags(c["offer"])),
+              "C:%s:-:%d:0" % (NATS[c["nat"]], tags(c["offer"])),
               "WC:0", "RO:0", "RF:0"]
     names = {"P0": "P0", "C0": "C0"}
     rel = [e for e in sc.events if e["kind"] == "A"]
@@ -406,6 +647,33 @@ def f1_labels(sc, obs, tags):
         names["A0"] = "A%d" % a["k"]
     else:
         labels += ["FC:0", "CT:0", "CC:0"]
+    return labels, names
+
+
+def reinstall_race_labels(sc, obs, tags):
+    """poll@0; lock held 300..2700; client@1000 (passes the bridge check, then queues on the lock inside
+    matchSnowflake); a new list is installed @1900; the lock is released and the proxy handler looks the relay URL up
+    in the NEW list. If the machine was too slow to force this order (the proxy was told the old URL), the labels of
+    the unforced order are produced instead: both are runs of the model."""
+    p = [e for e in sc.events if e["kind"] == "P"][0]
+    c = [e for e in sc.events if e["kind"] == "C"][0]
+    ins = [e for e in sc.events if e["kind"] == "I"][0]
+    old = dict(sc.bridge_list())
+    r = obs.get("P0", "")
+    forced = not (r.startswith("match:") and r.split(":", 3)[3] == old.get(c["fp"]) != dict(ins["bridges"]).get(c["fp"]))
+    lp = "P:%d:%s:%d:%d" % (tags(p["sid"]), NATS[p["nat"]], tags(p["ptype"]), p["clients"])
+    lc = "C:%s:%d:%d:0" % (NATS[c["nat"]], tags(c["fp"]), tags(c["offer"]))
+    li = install_label(ins["bridges"], tags)
+    labels = [lp, lc, li, "RO:0", "RF:0"] if forced else [lp, lc, "RO:0", "RF:0", li]
+    names = {"P0": "P0", "C0": "C0"}
+    rel = [e for e in sc.events if e["kind"] == "A"]
+    if rel and r.startswith("match:"):
+        a = rel[0]
+        labels += ["A:%d:%d" % (tags(a["sid"]), tags(a["ans"])), "AP:0", "TA:0", "CC:0"]
+        names["A0"] = "A%d" % a["k"]
+    else:
+        labels += ["FC:0", "CT:0", "CC:0"]
+    sc.forced_achieved = forced
     return labels, names
 
 
@@ -451,6 +719,50 @@ def scenarios(rng, tier):
             sc.client(300, "restricted", "{%s}" % fresh("o"), fp=fp, mode=mode)
             sc.answer(150, sid, fresh("ans"), after_poll=0)
             S.append(sc)
+        # the list is re-installed while the broker runs: later clients are checked against, and later proxies told
+        # the URLs of, the new list; a bridge dropped by the new list is unknown from then on
+        A2 = "wss://bridge-a2.example/"
+        sc = Scen(fresh("reinst"), "bridge-reinstall", bridges=BD)
+        s1, s2, s3 = fresh("sid"), fresh("sid"), fresh("sid")
+        sc.poll(0, s1, "unrestricted"); sc.client(300, "restricted", "{%s}" % fresh("o"), fp=B2[0][0]); sc.answer(150, s1, fresh("ans"), after_poll=0)
+        sc.install(1500, [(B2[0][0], A2), (DEFAULT_FP, DEFAULT_URL)])
+        sc.poll(1800, s2, "unrestricted"); sc.client(2100, "unknown", "{%s}" % fresh("o"), fp=B2[0][0], mode="a"); sc.answer(150, s2, fresh("ans"), after_poll=1)
+        sc.poll(2500, s3, "unrestricted"); sc.client(2800, "restricted", "{%s}" % fresh("o"), fp=B2[1][0])
+        sc.client(3200, "restricted", "{%s}" % fresh("o"), fp="-", mode="l"); sc.answer(150, s3, fresh("ans"), after_poll=2)
+        S.append(sc)
+        # ... and in the window between a client's bridge check and the proxy handler's own lookup (lock-forced):
+        # the proxy is told the NEW url of that bridge, or - when the new list dropped the bridge - gets an error
+        for newlist in ([(B2[0][0], A2), (DEFAULT_FP, DEFAULT_URL)], [(B2[1][0], B2[1][1]), (DEFAULT_FP, DEFAULT_URL)]):
+            sc = Scen(fresh("reinstrace"), "bridge-reinstall-race", bridges=BD, watchdog=16000, labels=reinstall_race_labels)
+            sid = fresh("sid")
+            sc.poll(0, sid, "unrestricted"); sc.lock(300, 2400); sc.client(1000, "restricted", "{%s}" % fresh("o"), fp=B2[0][0])
+            sc.install(1900, newlist); sc.answer(150, sid, fresh("ans"), after_poll=0)
+            S.append(sc)
+        # more re-installations between matches for the same fingerprint: a bridge is dropped and later re-added with
+        # another address; the addresses of two bridges are swapped
+        FA, FB = B2[0][0], B2[1][0]
+        UA, UB = B2[0][1], B2[1][1]
+        D = (DEFAULT_FP, DEFAULT_URL)
+        sc = Scen(fresh("reinst"), "bridge-reinstall-readd", bridges=[(FA, UA), D])
+        t = 0
+        sids = []
+        def one(fp, t, mode="v"):
+            sid = fresh("sid"); sids.append(sid)
+            j = sc.poll(t, sid, "unrestricted")
+            sc.client(t + 300, rng.choice(["restricted", "unknown"]), "{%s}" % fresh("o"), fp=fp, mode=mode)
+            sc.answer(150, sid, fresh("ans"), after_poll=j)
+        one(FA, 0); sc.install(700, [D])                       # FA dropped
+        sc.client(1000, "restricted", "{%s}" % fresh("o"), fp=FA)   # unknown now
+        sc.install(1400, [(FA, "wss://bridge-a3.example/x"), D])     # re-added elsewhere
+        one(FA, 1700, "a"); one("-", 2400, "l")
+        S.append(sc)
+        sc = Scen(fresh("reinst"), "bridge-reinstall-swap", bridges=[(FA, UA), (FB, UB), D])
+        one(FA, 0); one(FB, 700, "a")
+        sc.install(1500, [(FA, UB), (FB, UA), D])
+        one(FA, 1800, "a"); one(FB, 2500)
+        sc.install(3200, [(FA, UA), (FB, UB), D])
+        one(FB, 3500); one(FA, 4200)
+        S.append(sc)
         # least loaded among several, mixed pools
         for _i in range(3):
             sc = Scen(fresh("load"), "least-loaded")
@@ -529,6 +841,34 @@ def scenarios(rng, tier):
                 if rng.random() < 0.8:
                     sc.answer(rng.randrange(0, 300), sid, fresh("ans"), after_poll=j)
             S.append(sc)
+        # surplus herds: more waiting proxies than clients, few distinct loads: the proxies left over at the end must not
+        # be less loaded than the ones handed out, and nobody may be refused (predicates sound under concurrency)
+        for size in ([10] if tier == "quick" else [10, 30]):
+            sc = Scen(fresh("surplus"), "surplus-herd", herd=True, watchdog=14000)
+            for j in range(size):
+                sc.poll(rng.randrange(0, 40), fresh("sid"), rng.choice(["unrestricted", "unrestricted", "restricted"]), clients=rng.choice([0, 0, 1, 8, 9]),
+                        ptype=rng.choice(["standalone", "webext", "badge"]))
+            for j in range(size // 2):
+                sc.client(600 + rng.randrange(0, 40), rng.choice(cnats), "{%s}" % fresh("o"), mode=rng.choice(modes))
+            for j in range(size):
+                sc.answer(100, [e for e in sc.events if e["kind"] == "P"][j]["sid"], fresh("ans"), after_poll=j)
+            S.append(sc)
+        # delivery herds: every client is matched with its own proxy and all client responses are delivered at the same
+        # time (slow connections: the first Write of every client handler waits for the others); answers of different
+        # lengths and contents; each client must receive exactly the answer posted for the poll that got ITS offer
+        for size, amp_share in ([(12, 1.0), (24, 0.6)] if tier == "quick" else [(12, 1.0), (24, 0.6), (48, 0.8), (32, 1.0)]):
+            sc = Scen(fresh("deliver"), "delivery-herd", herd=True, watchdog=20000, barrier=size)
+            sids = []
+            for j in range(size):
+                sid = fresh("sid"); sids.append(sid)
+                sc.poll(rng.randrange(0, 30), sid, "unrestricted", clients=rng.randrange(0, 3))
+            for j in range(size):
+                mode = "a" if rng.random() < amp_share else rng.choice(["v", "l"])
+                sc.client(300 + rng.randrange(0, 30), rng.choice(["restricted", "unknown", ""]), "{%s}" % fresh("o"), mode=mode)
+            for j, sid in enumerate(sids):
+                body = fresh("ans") + "z" + "".join(rng.choice("abcdefghijklmnopqrstuvwxy0123456789") for _ in range(rng.choice([0, 1, 7, 40, 300, 1500, 5000])))
+                sc.answer(rng.randrange(0, 200), sid, body, after_poll=j)
+            S.append(sc)
         # timeout-boundary herds: clients arrive around the polls' expiry, answers around the clients' expiry
         for size in ([8] if tier == "quick" else [8, 24]):
             sc = Scen(fresh("edge"), "timeout-boundary-herd", herd=True, watchdog=24000)
@@ -542,3 +882,174 @@ def scenarios(rng, tier):
                 sc.answer(10000 + rng.randrange(-20, 20), sid, fresh("ans"), after_poll=j)
             S.append(sc)
     return S
+
+
+# ---------------------------------------------------------------- SnowflakeHeap scripts (C03: `broker heap`)
+# The extracted Model/BrokerHeap.v xstep (the definition the index-consistency and refinement theorems are about)
+# and the real SnowflakeHeap driven through container/heap run the same scripted Push/Pop/Remove(i)/Fix sequences;
+# after every operation the element handed back, the slice order and every element's `index` field are compared,
+# and the heap's contract is evaluated on the implementation's own output.
+
+PTYPES = ["standalone", "webext", "badge", "iptproxy", ""]
+
+
+def heap_cases(rng, tier):
+    cases = []   # (kind, [ops])
+    nid = [0]
+
+    def push(c, pt=None):
+        nid[0] += 1
+        return "u:%d:%d:%s" % (nid[0], c, rng.choice(PTYPES) if pt is None else pt)
+
+    def case(kind, ops):
+        cases.append((kind, ops))
+        nid[0] = 0
+
+    # exhaustive small scope: every load vector over {0,1,2} of length 1..4, then every single removal / pops to empty
+    import itertools
+    for n in (1, 2, 3, 4):
+        for loads in itertools.product((0, 1, 2), repeat=n):
+            if n == 4 and tier == "quick" and rng.random() < 0.6:
+                continue
+            ops = [push(c, "standalone" if (i + sum(loads)) % 2 else "webext") for i, c in enumerate(loads)]
+            tail = rng.choice(["pop", "rem"])
+            if tail == "pop":
+                case("heap-small-pop-all", ops + ["o"] * (n + 1))
+            else:
+                i = rng.randrange(0, n + 1)
+                case("heap-small-remove", ops + ["r:%d" % i] + ["o"] * n)
+    # equal loads: ties everywhere, mixed proxy types (a Less that looks at anything but the load changes the order)
+    for n in (2, 3, 5, 8, 13):
+        for c in (0, 7):
+            ops = [push(c, PTYPES[i % len(PTYPES)]) for i in range(n)]
+            case("heap-equal-loads", ops + ["o"] * (n // 2) + ["r:0", "r:%d" % max(0, n - n // 2 - 2)] + ["o"] * n)
+    # mixed proxy types with distinct loads: the standalone ones are the busiest
+    for n in (2, 3, 4, 6, 9):
+        loads = rng.sample(range(0, 40), n)
+        srt = sorted(loads)
+        ops = [push(c, "standalone" if c >= srt[len(srt) // 2] else rng.choice(["webext", "badge", "iptproxy"])) for c in loads]
+        case("heap-mixed-types", ops + ["o"] * (n + 1))
+        ops = [push(c, "standalone" if c >= srt[len(srt) // 2] else rng.choice(["webext", "badge", "iptproxy"])) for c in loads]
+        case("heap-mixed-types", ops[: n // 2] + ["o"] + ops[n // 2:] + ["o"] * n)
+    # remove first / last / middle / out of range, remove after pop, then drain
+    for n in (1, 2, 3, 5, 7, 10, 15):
+        for where in ("first", "last", "middle", "beyond", "after-pop"):
+            ops = [push(rng.randrange(0, 6)) for _ in range(n)]
+            if where == "first":
+                ops.append("r:0")
+            elif where == "last":
+                ops.append("r:%d" % (n - 1))
+            elif where == "middle":
+                ops.append("r:%d" % (n // 2))
+            elif where == "beyond":
+                ops.append("r:%d" % n)
+            else:
+                ops += ["o", "r:%d" % rng.randrange(0, max(1, n - 1)), "r:%d" % max(0, n - 2)]
+            case("heap-remove-" + where, ops + [push(rng.randrange(0, 6))] + ["o"] * (n + 1))
+    # Fix: raise the root, lower a leaf, no change, out of range
+    for n in (1, 3, 6, 11):
+        ops = [push(rng.randrange(0, 9)) for _ in range(n)]
+        ops += ["f:0:%d" % rng.randrange(5, 20), "f:%d:0" % (n - 1), "f:%d:%d" % (n // 2, rng.randrange(0, 9)), "f:%d:3" % n]
+        case("heap-fix", ops + ["o"] * (n + 1))
+    # random walks with many ties
+    reps = 60 if tier == "quick" else 600
+    for _ in range(reps):
+        ops = []
+        size = 0
+        hi = rng.choice([2, 3, 8, 50])
+        for _j in range(rng.randrange(4, 36)):
+            r = rng.random()
+            if r < 0.5 or size == 0:
+                ops.append(push(rng.randrange(0, hi))); size += 1
+            elif r < 0.72:
+                ops.append("o"); size -= 1
+            elif r < 0.92:
+                i = rng.randrange(0, size + 1)
+                ops.append("r:%d" % i)
+                if i < size:
+                    size -= 1
+            else:
+                ops.append("f:%d:%d" % (rng.randrange(0, size + 1), rng.randrange(0, hi)))
+        case("heap-random", ops + ["o"] * rng.randrange(0, size + 2))
+    return cases
+
+
+def heap_prop(line, impl, model):
+    """SnowflakeHeap's contract evaluated on the implementation's own output."""
+    ops = line.split(" ")[2].split(",")
+    segs = impl.split(" ") if impl else []
+    if len(segs) != len(ops):
+        return "heap driver answered %d segments for %d operations: %s" % (len(segs), len(ops), impl[:200])
+    arr = []     # [(id, clients)]
+    gone = []    # ids
+    for k, (op, seg) in enumerate(zip(ops, segs)):
+        try:
+            ret, a, o = seg.split("/")
+            now = [] if a == "-" else [tuple(x.split(":")) for x in a.split(".")]
+            out = [] if o == "-" else [tuple(x.split(":")) for x in o.split(".")]
+        except ValueError:
+            return "unparsable segment %d: %s" % (k, seg)
+        f = op.split(":")
+        before = list(arr)
+        exp = sorted(before)
+        if f[0] == "u":
+            exp = sorted(before + [(f[1], int(f[2]))])
+        elif f[0] == "o" and before:
+            m = min(c for _, c in before)
+            got = [c for i, c in before if i == ret]
+            if not got or got[0] != m:
+                return "op %d (Pop): handed back %s (load %s) while the smallest load in the heap was %d; heap before: %s" % (
+                    k, ret, got[0] if got else "?", m, before)
+            exp = sorted(x for x in before if x[0] != ret)
+            gone.append(ret)
+        elif f[0] == "r" and int(f[1]) < len(before):
+            want = before[int(f[1])][0]
+            if ret != want:
+                return "op %d (Remove %s): handed back %s, element at that position was %s" % (k, f[1], ret, want)
+            exp = sorted(x for x in before if x[0] != ret)
+            gone.append(ret)
+        elif f[0] == "f" and int(f[1]) < len(before):
+            i = int(f[1])
+            exp = sorted(before[:i] + [(before[i][0], int(f[2]))] + before[i + 1:])
+        elif ret != "-":
+            return "op %d (%s) on a heap of %d handed back %s" % (k, op, len(before), ret)
+        arr = [(i, int(c)) for i, c, _ in now]
+        if sorted(arr) != exp:
+            return "op %d (%s): contents changed: expected %s, slice holds %s" % (k, op, exp, sorted(arr))
+        for pos, (i, c, idx) in enumerate(now):
+            if int(idx) != pos:
+                return "op %d (%s): element %s at position %d has index %s" % (k, op, i, pos, idx)
+        if [i for i, _ in out] != gone:
+            return "op %d (%s): elements that left the heap: expected %s, got %s" % (k, op, gone, out)
+        for i, idx in out:
+            if int(idx) != -1:
+                return "op %d (%s): element %s left the heap but has index %s" % (k, op, i, idx)
+        # the slice is heap ordered (what makes the NEXT Pop correct)
+        for pos in range(1, len(arr)):
+            if arr[pos][1] < arr[(pos - 1) // 2][1]:
+                return "op %d (%s): slice not heap ordered at position %d: %s" % (k, op, pos, arr)
+    return None
+
+
+def heap_key(line, impl, model):
+    bad = heap_prop(line, impl, model) or ""
+    if "(Pop): handed back" in bad:
+        return "heap-pop-not-least-loaded"
+    if "has index" in bad:
+        return "heap-index-inconsistent"
+    if "not heap ordered" in bad:
+        return "heap-order-broken"
+    if "(Remove" in bad:
+        return "heap-remove-wrong-element"
+    return "heap-contents"
+
+
+def run_heap(ctx, label="snowflake-heap"):
+    exe = vlib.go_test_build("./broker", name="broker.test")
+    os.environ["VERIF_DRIVER"] = "broker"
+    cases = heap_cases(ctx.rng, ctx.tier)
+    lines = ["broker heap " + (",".join(ops) if ops else "-") for _, ops in cases]
+    kinds = [k for k, _ in cases]
+    ctx.correspond(exe, lines, kinds=kinds, label=label, prop=heap_prop, key_of=heap_key,
+                   impl_args=["-test.run", "^TestVerifBrokerDriver$"])
+    ctx.extra["heap_scripts"] = len(lines)
